@@ -261,7 +261,7 @@ func ruleU6(p *Prog) *RuleResult {
 						continue
 					}
 					ct, ok := cv.Type().Underlying().(*types.Basic)
-					if !ok || ct.Info()&types.IsInteger == 0 || p.sizeofBasic(ct) >= 8 {
+					if !ok || ct.Info()&types.IsInteger == 0 || (p.sizeofBasic(ct) >= 8 && ct.Kind() != types.Int && ct.Kind() != types.Uint && ct.Kind() != types.Uintptr) {
 						continue
 					}
 					n++
